@@ -1,10 +1,11 @@
 import ComposeVerif.Model.C11Normalize
 /-!
-# C11 — negative facts about the unchanged tree (concrete witnesses)
+# C11 — negative facts (concrete witnesses) and regression witnesses
 
-`Normalize` is *not* total: an empty `pid:` (YAML null — accepted by the schema) reaches the unchecked
-assertion `n.(string)` of the namespace loop and panics (DESIGN §10 #2; the finding belongs to C01, the
-model reproduces it, and the correspondence stream replays it on the real code: corpus/C11/null-pid.json).
+`Normalize` used to be partial (DESIGN §10 #2: an empty `pid:` reached `n.(string)`; every other assertion was
+unchecked too).  /repo now carries the repairs, the model follows, and the former witnesses are kept as positive
+regression facts: `null_pid_is_ok`, `bad_link_is_error` (corpus/C11/null-pid.json, bad-link.json replay them on the
+real code).  What remains negative is the hypothesis of `normalize_idem`.
 -/
 namespace CV.C11
 open CV CV.Val
@@ -12,13 +13,22 @@ open CV CV.Val
 def nullPidDoc : KVs :=
   [("name", .str "proj"), ("services", .map [("a", .map [("image", .str "i"), ("pid", .null)])])]
 
-def isPanicAt (site : String) : Out KVs → Bool
-  | .panic s => s == site
+def badLinkDoc : KVs :=
+  [("name", .str "proj"), ("services", .map [("a", .map [("links", .seq [.int 1])])])]
+
+def isErr : Out KVs → Bool
+  | .err _ => true
   | _ => false
 
-/-- negation of "`Normalize` never panics": witness `services: {a: {image: i, pid: }}` -/
-theorem normalize_not_total : ∃ d, isPanicAt "loader.Normalize" (normalize pathClean [] d) = true :=
-  ⟨nullPidDoc, by decide⟩
+def isOk : Out KVs → Bool
+  | .ok _ => true
+  | _ => false
+
+/-- an empty `pid:` is accepted -/
+theorem null_pid_is_ok : isOk (normalize pathClean [] nullPidDoc) = true := by decide
+
+/-- a shape the schema would have rejected is an error, not a panic -/
+theorem bad_link_is_error : isErr (normalize pathClean [] badLinkDoc) = true := by decide
 
 def argsOfA (d : KVs) : Option Val :=
   match lookup "services" d with
